@@ -38,6 +38,7 @@ Inductive ev :=
 | ETvFail (i : Z)
 | ECrash (i : Z)
 | EHarnessPanic
+| EEnvMark (code : Z)
 | EOther (code : Z).
 
 (* kind numbers: the order of this list is the contract with oracle/sim_cmds.ml *)
@@ -45,7 +46,7 @@ Definition kind_names : list string :=
   ["instdef"; "valdef"; "issue"; "apply"; "ret"; "flag"; "trans"; "promote"; "promoteret"; "ctxdone";
    "demote"; "demoteret"; "health"; "healthret"; "api"; "apiret"; "status"; "quiet"; "end"; "census";
    "extput"; "extdel"; "expire"; "wsend"; "wrecv"; "wdrop"; "wclose"; "wstop"; "log"; "connstat";
-   "tvfail"; "crash"; "harnesspanic"]%string.
+   "tvfail"; "crash"; "harnesspanic"; "envmark"]%string.
 
 Definition decode (k : Z) (a : list Z) : ev :=
   match k, a with
@@ -82,6 +83,7 @@ Definition decode (k : Z) (a : list Z) : ev :=
   | 30, [i] => ETvFail i
   | 31, [i] => ECrash i
   | 32, _ => EHarnessPanic
+  | 33, [c] => EEnvMark c
   | _, _ => EOther k
   end.
 
